@@ -216,3 +216,383 @@ def negotiate_signature(st, d):
     if "status" in d:
         return "negotiate:outcome:%s-instead-of-%s" % (d["status"]["code"], d["status"]["spec"])
     return "negotiate:version-after-connect"
+
+
+# ====================================================================== C42 node-list refresh
+LOCS = {"a": ("dc1", "r1"), "b": ("dc1", "r2"), "c": ("dc2", "r1"), "none": (None, None)}
+LOC_OF = {v: k for k, v in LOCS.items()}
+
+
+def addr(h):
+    return "10.0.0.%d" % (h + 1)
+
+
+def host_no(address):
+    return int(str(address).rsplit(".", 1)[1]) - 1
+
+
+def hid(h):
+    return uuid.UUID(int=0x1000 + h)
+
+
+def tokens_of(h, v):
+    """Tok(h, v) of ControlRefresh.tla as byte-ordered token strings (the numbers are part of the data model the
+    harness shares with the spec, like addresses)."""
+    nums = {1: [16 * h], 2: [16 * h, 16 * h + 8], 3: [16 * h + 8]}.get(v, [])
+    return ["%02x" % n for n in nums]
+
+
+class RecListener(HostStateListener):
+    def __init__(self):
+        self.events = []
+
+    def on_up(self, host):
+        self.events.append(("up", host_no(host.address)))
+
+    def on_down(self, host):
+        self.events.append(("down", host_no(host.address)))
+
+    def on_add(self, host):
+        self.events.append(("add", host_no(host.address)))
+
+    def on_remove(self, host):
+        self.events.append(("remove", host_no(host.address)))
+
+
+class RecLBP(RoundRobinPolicy):
+    """Round robin that records every notification with the location the host had at that moment; the query plan
+    always starts with the control node (lowest address) so that requests have a known coordinator."""
+
+    def __init__(self):
+        RoundRobinPolicy.__init__(self)
+        self.events = []
+
+    def _rec(self, kind, host):
+        self.events.append((kind, host_no(host.address), LOC_OF.get((host.datacenter, host.rack), (host.datacenter, host.rack))))
+
+    def on_up(self, host):
+        self._rec("up", host)
+        RoundRobinPolicy.on_up(self, host)
+
+    def on_down(self, host):
+        self._rec("down", host)
+        RoundRobinPolicy.on_down(self, host)
+
+    def on_add(self, host):
+        self._rec("add", host)
+        RoundRobinPolicy.on_add(self, host)
+
+    def on_remove(self, host):
+        self._rec("remove", host)
+        RoundRobinPolicy.on_remove(self, host)
+
+    def make_query_plan(self, working_keyspace=None, query=None):
+        hosts = sorted(self._live_hosts, key=lambda h: host_no(h.address))
+        return iter(hosts)
+
+
+class RefreshHarness:
+    """One simulated cluster (control node 0 + FakeNodes for every peer number) whose control node's system tables
+    are rewritten from a spec snapshot before every refresh."""
+
+    def __init__(self, peers, v2=False):
+        self.peers = sorted(peers)
+        self.world = SimWorld()
+        self.nodes = {}
+        for h in [0] + self.peers:
+            n = FakeNode(addr(h), host_id=hid(h), tokens=tokens_of(h, 1))
+            self.nodes[h] = self.world.add_node(n)
+        self.ctl = self.nodes[0]
+        self.ctl.has_peers_v2 = bool(v2)
+        self.ctl.peer_rows_override = []
+        self.lbp = RecLBP()
+        self.listener = RecListener()
+        self.cluster = make_cluster(self.world, [addr(0)], lbp=self.lbp)
+        self.cluster.register_listener(self.listener)
+        self.session = None
+        self.steps = 0
+        self.last_error = None
+
+    # ---- system tables from the snapshot
+    def _row(self, r, snap, occurrence):
+        ep, miss = r["ep"], r["miss"]
+        info = snap["local"] if ep == 0 else snap["info"][ep - 1] if isinstance(snap["info"], (list, tuple)) else snap["info"][ep]
+        dc, rack = LOCS[info["loc"]]
+        row = {"peer": addr(ep) if (ep != 0 and occurrence == 0) else "10.0.%d.%d" % (occurrence + 1, ep + 1),
+               "address": addr(ep), "data_center": dc, "rack": rack, "host_id": hid(ep),
+               "release_version": "4.0.0", "schema_version": self.ctl.schema_version,
+               "tokens": tokens_of(ep, info["tok"])}
+        if miss == "address":
+            row["peer"] = None
+            row["address"] = None
+        elif miss != "none":
+            row[miss] = None
+        return row
+
+    def install(self, act):
+        snap = act["snap"]
+        dc, rack = LOCS[snap["local"]["loc"]]
+        self.ctl.dc, self.ctl.rack = dc, rack
+        self.ctl.tokens = tokens_of(0, snap["local"]["tok"])
+        seen = {}
+        rows = []
+        for r in act["rows"]:
+            k = seen.get(r["ep"], 0)
+            seen[r["ep"]] = k + 1
+            rows.append(self._row(r, snap, k))
+        self.ctl.peer_rows_override = rows
+
+    # ---- the action
+    def refresh(self, act):
+        """Perform Refresh(snap, force) on the real objects; returns the projection."""
+        self.install(act)
+        del self.listener.events[:]
+        del self.lbp.events[:]
+        del self.ctl.received[:]
+        tm_before = self.cluster.metadata.token_map
+        first = self.session is None
+        ok = True
+        self.last_error = None
+        try:
+            if first:
+                self.session = self.cluster.connect()
+                self.cluster.control_connection._time = self.world.clock
+            else:
+                ok = self.cluster.control_connection.refresh_node_list_and_token_map(
+                    force_token_rebuild=bool(act.get("force", False)))
+        except Exception as exc:
+            ok = False
+            self.last_error = "%s: %s" % (type(exc).__name__, str(exc)[:200])
+        self.steps += 1
+        return self.project(ok, first, tm_before)
+
+    def repair_ring(self):
+        """force_token_rebuild=True with the tables unchanged: brings a stale token map up to date."""
+        try:
+            self.cluster.control_connection.refresh_node_list_and_token_map(force_token_rebuild=True)
+        except Exception:
+            pass
+        return self.ring()
+
+    def ring(self):
+        tm = self.cluster.metadata.token_map
+        if tm is None:
+            return {}
+        out = {}
+        for t, h in tm.token_to_host_owner.items():
+            v = t.value
+            out[int.from_bytes(v, "big") if isinstance(v, (bytes, bytearray)) else v] = host_no(h.address)
+        return out
+
+    def project(self, ok=True, first=False, tm_before=None):
+        md = self.cluster.metadata
+        known, ids = {}, {}
+        for h in md.all_hosts():
+            n = host_no(h.address)
+            known[n] = LOC_OF.get((h.datacenter, h.rack), "%s/%s" % (h.datacenter, h.rack))
+            ids[n] = h.host_id
+        added, removed = {}, {}
+        for kind, n in self.listener.events:
+            if kind == "add":
+                added[n] = added.get(n, 0) + 1
+            elif kind == "remove":
+                removed[n] = removed.get(n, 0) + 1
+        if first and added.get(0):
+            added[0] -= 1          # Cluster.connect() announces the contact point itself, before any refresh
+        return {"ok": ok, "known": known, "host_ids": ids, "ring": self.ring(), "added": added, "removed": removed,
+                "lbp": list(self.lbp.events), "tm_replaced": md.token_map is not tm_before, "error": self.last_error}
+
+    def shutdown(self):
+        try:
+            self.cluster.shutdown()
+        except Exception:
+            pass
+
+
+def _moved(lbp_events, h, old, new):
+    """policies told down(h at old location) and later up(h at new location)?"""
+    for i, (kind, n, loc) in enumerate(lbp_events):
+        if kind == "down" and n == h and loc == old:
+            for kind2, n2, loc2 in lbp_events[i + 1:]:
+                if kind2 == "up" and n2 == h and loc2 == new:
+                    return True
+    return False
+
+
+def refresh_diff(st, proj, hosts):
+    """Spec state after Refresh vs projection of the real objects -> {field: {spec, code}} (empty = conforms)."""
+    d = {}
+    if not proj["ok"]:
+        d["ok"] = {"spec": True, "code": False, "error": proj["error"]}
+    sk = {h: v["loc"] for h, v in st["known"].items()}
+    if set(sk) != set(proj["known"]):
+        d["hosts"] = {"spec": sorted(sk), "code": sorted(proj["known"])}
+    else:
+        bad = {h: {"spec": sk[h], "code": proj["known"][h]} for h in sk if sk[h] != proj["known"][h]}
+        if bad:
+            d["location"] = bad
+        badid = sorted(h for h in sk if proj["host_ids"].get(h) != hid(h))
+        if badid:
+            d["host_id"] = {"hosts": badid}
+    sa = {h: n for h, n in st["added"].items() if n}
+    ca = {h: n for h, n in proj["added"].items() if n}
+    if sa != ca:
+        d["on_add"] = {"spec": sa, "code": ca}
+    sr = {h: n for h, n in st["removed"].items() if n}
+    cr = {h: n for h, n in proj["removed"].items() if n}
+    if sr != cr:
+        d["on_remove"] = {"spec": sr, "code": cr}
+    missing = [list(m) for m in sorted(st["moves"]) if not _moved(proj["lbp"], m[0], m[1], m[2])]
+    if missing:
+        d["lbp"] = {"spec": missing, "code": proj["lbp"][:40]}
+    if dict(st["ring"]) != proj["ring"]:
+        d["ring"] = {"spec": dict(st["ring"]), "code": proj["ring"]}
+    return d
+
+
+def refresh_signature(st, d):
+    """Stable class of a C42 divergence."""
+    if "ok" in d:
+        return "refresh:raised"
+    for k in ("hosts", "location", "host_id", "on_add", "on_remove", "lbp"):
+        if k in d:
+            if k == "hosts":
+                spec, code = set(d[k]["spec"]), set(d[k]["code"])
+                return "refresh:hosts:%s" % ("+".join(x for x, c in (("extra", code - spec), ("missing", spec - code)) if c))
+            return "refresh:%s" % k
+    same_members = set(st["known"]) == set(st["prev"])
+    same_loc = same_members and all(st["known"][h]["loc"] == st["prev"][h]["loc"] for h in st["known"])
+    if same_members:
+        return "refresh:token-change-no-rebuild" if same_loc else "refresh:token-change-no-rebuild:control-location-changed"
+    return "refresh:ring-stale-after-membership-change"
+
+
+def node_key(known):
+    return tuple(sorted((h, v["loc"], v["tok"]) for h, v in known.items()))
+
+
+class RefreshReplayer:
+    """Replays Refresh edges (spec states) on RefreshHarness objects, chaining them: the state after one edge is the
+    state before the next.  Divergences are reported through `on_divergence(state, diff, signature, history)`;
+    a stale token map is repaired (forced rebuild) so that the chain can continue, anything else ends the chain."""
+
+    def __init__(self, peers, on_divergence, v2=False, max_chain=3000):
+        self.peers, self.v2 = sorted(peers), v2
+        self.hosts = [0] + self.peers
+        self.on_divergence = on_divergence
+        self.h = None
+        self.cur = None
+        self.history = []
+        self.max_chain = max_chain
+        self.applied = 0
+        self.conforming = 0
+        self.chains = 0
+
+    def fresh(self):
+        if self.h is not None:
+            self.h.shutdown()
+        self.h = RefreshHarness(self.peers, v2=self.v2)
+        self.cur = node_key({0: {"loc": "none", "tok": 0}})
+        self.history = []
+        self.chains += 1
+
+    def close(self):
+        if self.h is not None:
+            self.h.shutdown()
+            self.h = None
+            self.cur = None
+
+    def apply(self, st):
+        """Apply one edge whose source is the current node. Returns True when the real objects conform."""
+        assert node_key(st["prev"]) == self.cur, "edge does not start at the current node"
+        act = st["act"]
+        proj = self.h.refresh(act)
+        self.applied += 1
+        self.history.append({"snap": act["snap"], "force": act["force"], "rows": act["rows"]})
+        if len(self.history) > 6:
+            del self.history[:-6]
+        d = refresh_diff(st, proj, self.hosts)
+        if not d:
+            self.conforming += 1
+            self.cur = node_key(st["known"])
+            if self.h.steps >= self.max_chain:
+                self.close()
+            return True
+        sig = refresh_signature(st, d)
+        self.on_divergence(st, d, sig, list(self.history))
+        if set(d) == {"ring"} and self.h.repair_ring() == dict(st["ring"]):
+            self.cur = node_key(st["known"])
+        else:
+            self.close()
+        return False
+
+
+def cover_refresh_edges(states, replayer, rng, max_init=None, stop=lambda: False):
+    """Euler-style coverage of every (state before, snapshot) pair in `states` (Refresh states of ControlRefresh.tla)
+    by chains on real clusters.  Returns (covered, total)."""
+    init_key = node_key({0: {"loc": "none", "tok": 0}})
+    by_src, hop = {}, {}
+    for st in states:
+        s, t = node_key(st["prev"]), node_key(st["known"])
+        by_src.setdefault(s, []).append(st)
+        hop.setdefault(s, {}).setdefault(t, st)
+    for lst in by_src.values():
+        rng.shuffle(lst)
+    init_edges = by_src.pop(init_key, [])
+    if max_init is not None and len(init_edges) > max_init:
+        init_edges = init_edges[:max_init]
+    total = len(init_edges) + sum(len(v) for v in by_src.values())
+    covered = 0
+    pending = {k for k, v in by_src.items() if v}
+    spare_init = list(init_edges)
+
+    def path_to_pending(src):
+        # BFS over nodes
+        from collections import deque
+        par = {src: None}
+        dq = deque([src])
+        while dq:
+            u = dq.popleft()
+            if u in pending and u != src:
+                p = []
+                while par[u] is not None:
+                    p.append(hop[par[u]][u])
+                    u = par[u]
+                return p[::-1]
+            for v in hop.get(u, {}):
+                if v not in par:
+                    par[v] = u
+                    dq.append(v)
+        return None
+
+    while (init_edges or pending) and not stop():
+        replayer.fresh()
+        if init_edges:
+            e = init_edges.pop()
+            covered += 1
+        else:
+            e = rng.choice(spare_init)
+        if not replayer.apply(e) and replayer.cur is None:
+            continue
+        while replayer.cur is not None and not stop():
+            cur = replayer.cur
+            lst = by_src.get(cur)
+            if lst:
+                e = lst.pop()
+                covered += 1
+                if not lst:
+                    pending.discard(cur)
+                replayer.apply(e)
+                continue
+            if init_edges and replayer.h.steps > 200:
+                break                      # interleave the remaining first-connect edges
+            p = path_to_pending(cur)
+            if not p:
+                break
+            for e in p:
+                if replayer.cur is None or not replayer.apply(e):
+                    break
+            if replayer.cur is None:
+                break
+    replayer.close()
+    return covered, total
